@@ -58,6 +58,19 @@ Theorem C16_any_profile :
 Proof. exact any_profile. Qed.
 Print Assumptions C16_any_profile.
 
+(* context sharing (DESIGN 3.2 "sharing_ok"): whenever two registrations that share a context object both execute and
+   another registration lies between them, a pipeline_barrier registration between them executes too - for EVERY
+   valuation of the guard atoms.  With Pipeline.barrier_separates this is what makes the two-phase stages (normalize
+   phase 1/2, overlap tids/events, utilization fingerprints/compute, communication collect/apply, categorizer, launch
+   flows) see the whole stream in their first phase before the second starts. *)
+Theorem C16_shared_contexts_separated :
+  forall (v : nat -> bool) (a : program) (ri : reg) (mid : program) (rj : reg) (b : program),
+    the_program = (a ++ ri :: mid ++ rj :: b)%list -> share ri rj = true -> mid <> [] ->
+    geval v (r_guard ri) = true -> geval v (r_guard rj) = true ->
+    exists r, In r mid /\ is_barrier_reg r = true /\ geval v (r_guard r) = true.
+Proof. exact program_sharing_sound. Qed.
+Print Assumptions C16_shared_contexts_separated.
+
 (* non-vacuity: a valuation that switches on power counters, flow and comm summarisation registers all four
    sort_events / four barriers; switching TID overlap off drops exactly one barrier *)
 Example C16_nonvacuous :
